@@ -1,6 +1,7 @@
 package chk
 
 import (
+	"os"
 	"fmt"
 	"go/token"
 	"go/types"
@@ -413,6 +414,25 @@ func (pr *prover) intrinsic(term string, v ssa.Value) {
 				pr.g.addLE(zero, term, -lo)
 			}
 		}
+		// a cursor into a string or slice that the loop slices with: phi ≤ len(s) as an inductive invariant
+		if isLoopHeader(x.Block()) && isIntType(x.Type()) {
+			body := loopBody(x.Block())
+			for b := range body {
+				for _, in := range b.Instrs {
+					sl, isSl := in.(*ssa.Slice)
+					if !isSl || sl.Low != ssa.Value(x) || sl.High != nil || !invariantIn(sl.X, body) {
+						continue
+					}
+					if _, isPtr := sl.X.Type().Underlying().(*types.Pointer); isPtr {
+						continue
+					}
+					if pr.phiUpperLenInductive(x, sl.X) {
+						lt, _, _ := pr.lenTermOf(sl.X)
+						pr.g.addLE(term, lt, 0)
+					}
+				}
+			}
+		}
 	case *ssa.Call:
 		if bi, ok := x.Call.Value.(*ssa.Builtin); ok && (bi.Name() == "len" || bi.Name() == "cap") {
 			pr.g.addLE(zero, term, 0)
@@ -540,6 +560,88 @@ func (pr *prover) phiLowerInductive(phi *ssa.Phi, lo int64) bool {
 		phiLowerCache[phi] = 1
 	} else {
 		phiLowerCache[phi] = 2
+	}
+	return ok
+}
+
+var phiUpperCache = map[[2]ssa.Value]int{} // (phi, x) → 0 unknown, 1 proven, 2 failed, 3 in progress
+
+// phiUpperLenInductive: the loop counter phi never exceeds len(x), x unchanged by the loop — by induction over the
+// iterations: it starts at a constant ≤ 0, and an iteration that starts with phi ≤ len(x) hands on a value ≤ len(x)
+// (`rest := s[i:]` taken before the end test; the cursor advances by counts bounded by len(rest)).
+func (pr *prover) phiUpperLenInductive(phi *ssa.Phi, x ssa.Value) bool {
+	key := [2]ssa.Value{phi, x}
+	switch phiUpperCache[key] {
+	case 1, 3:
+		return true
+	case 2:
+		return false
+	}
+	phiUpperCache[key] = 3
+	h := phi.Block()
+	ok := true
+	for k, pb := range h.Preds {
+		if h.Dominates(pb) {
+			continue
+		}
+		if n, isC := constInt(phi.Edges[k]); !isC || n > 0 {
+			ok = false
+		}
+	}
+	var paths []*LPath
+	if ok {
+		var complete bool
+		paths, complete = EnumLits(h, 0, TabOpts{Termer: pr.t, Limit: 200000,
+			Stop: func(in ssa.Instruction, ps *pathState) bool { return in == h.Instrs[0] && len(ps.Path) > 1 }})
+		ok = complete
+	}
+	for _, lp := range paths {
+		if !ok {
+			break
+		}
+		if lp.Stop == nil {
+			continue
+		}
+		pred := lp.PS.Path[len(lp.PS.Path)-2]
+		var edge ssa.Value
+		for k, pb := range h.Preds {
+			if pb == pred {
+				edge = phi.Edges[k]
+			}
+		}
+		if edge == nil {
+			ok = false
+			break
+		}
+		sub := newProver(pr.p, pr.t, lp)
+		eps := lp.PS.clone()
+		if eps.BlockGen != nil {
+			delete(eps.BlockGen, h)
+		}
+		sub.ps = eps
+		lt, _, isArr := sub.lenTermOf(x)
+		if isArr {
+			ok = false
+			break
+		}
+		cur := sub.linOf(phi)
+		sub.g.addLE(cur.base, lt, -cur.off) // the hypothesis
+		if sub.g.inconsistent() {
+			continue
+		}
+		e := sub.linOf(edge)
+		sub.applyDisj()
+		if !sub.g.entailsLE(e.base, lt, -e.off) {
+			ok = false
+			if os.Getenv("SQLCHECK_DEBUG") != "" {
+				fmt.Fprintf(os.Stderr, "phiUpper %s ≤ %s fails: edge %s+%d on path [%s]\n", cur.base, lt, e.base, e.off, pathDesc(lp))
+			}
+		}
+	}
+	if ok {
+		phiUpperCache[key] = 1
+	} else {
+		phiUpperCache[key] = 2
 	}
 	return ok
 }
@@ -896,13 +998,15 @@ func (pr *prover) calleePost(term string, call *ssa.Call, idx int) {
 		pr.g.addLE(zero, term, -1)
 		pr.g.addLE(term, arg, 0)
 	case name == "sql.readNumericLiteral" && idx == 1:
-		arg := "len(" + pr.t.Term(call.Call.Args[0], pr.ps) + ")"
+		arg, _, _ := pr.lenTermOf(call.Call.Args[0])
 		pr.g.addLE(zero, arg, 0)
+		pr.g.addLE(term, arg, 0) // −1 or 1..len: at most len either way
 		pr.g.addLE(zero, term, 1)
 		pr.pendingDisj = append(pr.pendingDisj, disj{term: term, ifGE: 0, thenGE: 1, alsoLE: arg})
 	case name == "sql.readQuoted" && idx == 1:
-		arg := "len(" + pr.t.Term(call.Call.Args[1], pr.ps) + ")"
+		arg, _, _ := pr.lenTermOf(call.Call.Args[1])
 		pr.g.addLE(zero, arg, 0)
+		pr.g.addLE(term, arg, 0) // −1 or 1..len: at most len either way
 		pr.g.addLE(zero, term, 1)
 		pr.pendingDisj = append(pr.pendingDisj, disj{term: term, ifGE: 0, thenGE: 1, alsoLE: arg})
 	case name == "unicode/utf8.DecodeRuneInString" && idx == 1:
@@ -1093,6 +1197,24 @@ func (pr *prover) applyDisj() {
 				}
 			}
 		}
+		// t = x + y with y ≤ len(s[x+k:]) + d  ⇒  t ≤ len(s) − k + d   (`i + n` where n counts bytes of s[i+2:])
+		for _, sf := range pr.sums {
+			for _, pair := range [][2]lin{{sf.a, sf.b}, {sf.b, sf.a}} {
+				x, y := pair[0], pair[1]
+				for _, sl := range pr.sliceLens {
+					if sl.lo.base != x.base {
+						continue
+					}
+					if d, ok := pr.g.bound(y.base, sl.t); ok { // y.base − len(slice) ≤ d
+						w := d - sl.lo.off
+						if !pr.g.entailsLE(sf.t, sl.baseLen, w) {
+							pr.g.addLE(sf.t, sl.baseLen, w)
+							changed = true
+						}
+					}
+				}
+			}
+		}
 		for _, sl := range pr.sliceLens {
 			if d, ok := pr.g.bound(sl.lo.base, sl.baseLen); ok { // lo.base − baseLen ≤ d ⇒ t ≥ −d − lo.off
 				if !pr.g.entailsLE(zero, sl.t, d+sl.lo.off) {
@@ -1201,6 +1323,13 @@ func (pr *prover) assumeLit(l Lit) {
 		term := pr.t.Term(v, pr.ps)
 		if isNil {
 			pr.nilErr[term] = true
+			// library fact: strconv's parsers reject the empty string, so a nil error means a non-empty argument
+			if call, idx := extractOf(pr.ps.Resolve(v)); call != nil && idx == 1 && len(call.Call.Args) > 0 {
+				if cal := call.Call.StaticCallee(); cal != nil && (isLibFunc(cal, "strconv", "ParseInt") || isLibFunc(cal, "strconv", "ParseUint") || isLibFunc(cal, "strconv", "ParseFloat")) {
+					lt, _, _ := pr.lenTermOf(call.Call.Args[0])
+					pr.g.addLE(zero, lt, -1)
+				}
+			}
 		} else {
 			pr.nonNil[term] = true
 			// CONTRACT scan-error: scanInt64/scanFloat64/scanTime report an error only for an element that exists
@@ -1609,10 +1738,13 @@ func proveSite(p *Program, t *Termer, s panicSite) (string, string) {
 		if fn != s.Fn {
 			limit = 60000
 		}
-		paths, ok := EnumLits(fn.Blocks[0], 0, TabOpts{Termer: t, Limit: limit,
+		// a site inside a loop is reached on the first iteration (counters at their initial values) and on later
+		// ones (counters arbitrary): every arrival is an obligation
+		inLoop := inCycle(s.In.Block())
+		paths, ok := EnumLits(fn.Blocks[0], 0, TabOpts{Termer: t, Limit: limit, StopGoesOn: inLoop,
 			Stop: func(in ssa.Instruction, ps *pathState) bool { return in == s.In }})
 		if !ok && fn != s.Fn {
-			paths, ok = EnumLits(s.Fn.Blocks[0], 0, TabOpts{Termer: t, Limit: 300000,
+			paths, ok = EnumLits(s.Fn.Blocks[0], 0, TabOpts{Termer: t, Limit: 300000, StopGoesOn: inLoop,
 				Stop: func(in ssa.Instruction, ps *pathState) bool { return in == s.In }})
 		}
 		if !ok {
